@@ -74,3 +74,38 @@ def history(h):
             h.check(simp(z3.Not(bl(exp))) if is_sym(exp) else (not exp), "c12.matches-false-despite-active-prefix",
                     "matches() returned false although an active subscription is a prefix of the message")
             h.cover("c12.no-match")
+
+
+def replay_history(model, params, role):
+    d = dict(map(tuple, model.get("_choices", [])))
+    k = params.get("ops", 3)
+    def bs(name, n):
+        return bytes(model.get(f"{name}[{i}]", 0) if not isinstance(model.get(name), str) else 0 for i in range(n))
+    def topic(name):
+        n = d.get(name + ".len", 0)
+        hx = model.get(name, "")
+        b = bytes.fromhex(hx)[:n] if isinstance(hx, str) else b""
+        return b + bytes(n - len(b))
+    lines, subs, want = ["trie_new"], {}, []
+    for i in range(k):
+        if f"op{i}" not in d:
+            break
+        t = topic(f"t{i}")
+        if d[f"op{i}"] == 0:
+            lines.append("trie_sub " + t.hex())
+            subs[t] = subs.get(t, 0) + 1
+        else:
+            lines.append("trie_unsub " + t.hex())
+            if subs.get(t, 0) > 0:
+                subs[t] -= 1
+                want.append("unsub " + str(subs[t] == 0).lower())
+            else:
+                want.append("unsub false")
+        if f"m{i}.len" in d:
+            m = topic(f"m{i}")
+            lines.append("trie_match " + m.hex())
+            want.append("match " + str(any(c > 0 and m.startswith(tp) for tp, c in subs.items())).lower())
+    def pred(out):
+        got = [l.strip() for l in out.splitlines() if l.startswith(("unsub ", "match "))]
+        return got != want
+    return "\n".join(lines) + "\n", pred, f"history replayed natively; prefix-multiset reference expects {want}"
